@@ -349,6 +349,25 @@ def int_cmp(op, a, b):
         if not nz:
             return const(1 if op == "Eq" else 0, 1)
         return top_int(1)
+    # an unsigned value against a power of two that is its top bit's weight: the comparison is that bit
+    # (x >= 0x80 for a u8 is bit 7; x < 0x80 its complement) - exact on bit forms
+    if not a[2] and not b[2] and a[1] == b[1]:
+        w = a[1]
+        top = 1 << (w - 1)
+        if cb is not None and ca is None:
+            ba = bits_of(a)
+            if ba[w - 1] != TOPBIT:
+                if op == "Ge" and cb == top or op == "Gt" and cb == top - 1:
+                    return mk_int(1, False, (ba[w - 1],))
+                if op == "Lt" and cb == top or op == "Le" and cb == top - 1:
+                    return mk_int(1, False, (ba[w - 1] ^ 1,))
+        if ca is not None and cb is None:
+            bb_ = bits_of(b)
+            if bb_[w - 1] != TOPBIT:
+                if op == "Le" and ca == top or op == "Lt" and ca == top - 1:
+                    return mk_int(1, False, (bb_[w - 1],))
+                if op == "Gt" and ca == top or op == "Ge" and ca == top - 1:
+                    return mk_int(1, False, (bb_[w - 1] ^ 1,))
     if op == "Lt":
         if a[5] < b[4]:
             return const(1, 1)
